@@ -68,6 +68,7 @@ func TestNeverWrong(t *testing.T) {
 		ev.ExtraAdd("lookups", int64(r.Lookups))
 		ev.ExtraAdd("hits", int64(r.Hits))
 		ev.ExtraAdd("direct_block_writes", int64(r.DirectBlockWrites))
+		ev.ExtraAdd("lookups_answered_20_or_more_links_back", int64(r.DeepWalks))
 		if nt && ev.WantSample() {
 			lg := r.Log
 			if len(lg) > 60 {
